@@ -140,3 +140,26 @@ def jobs(tier, seed):
                 jobs.append({"harness": "total", "params": base, "weight": sc.get("weight", 3),
                              "cpu_cap": 900, "wall_cap": 1500})
     return jobs
+
+
+def thorough_extra(seed):
+    """Deeper than quick: four free characters on the block unit, three on the inline unit, commonmark preset, two free characters
+    in the inline contexts."""
+    jobs = []
+    names = "abcdefgh"
+    spec_nocr = {names[i]: dict(NOCRNUL) for i in range(8)}
+    _sharded(jobs, {"cfg": JS, "mode": "block", "scaffold": free_doc(4, "\n")}, weight=30, spec=spec_nocr)
+    _sharded(jobs, {"cfg": CM, "mode": "block", "scaffold": free_doc(3, "\n")}, weight=10, spec=spec_nocr)
+    _sharded(jobs, {"cfg": JS, "mode": "inline", "scaffold": free_doc(3)}, weight=30, spec=spec_nocr)
+    _sharded(jobs, {"cfg": GFM, "mode": "render", "scaffold": free_doc(2)}, weight=8)
+    for sc in S.ctx_scaffolds("thorough"):
+        if sc.get("mode") == "inline_render" and sc["name"] in ("link-text", "image-alt", "emph", "code-span", "angle", "entity", "autolink-mail"):
+            base = {"cfg": JS, "mode": "inline_render", "scaffold": sc["scaffold"], "name": sc["name"] + "-2free"}
+            _sharded(jobs, base, weight=20, spec=sc.get("spec", {}))
+        elif sc.get("mode") == "block" and sc["name"].endswith("-nl") and sc["name"][:-3] in S.QUICK_BLOCK:
+            jobs.append({"harness": "total", "params": {"cfg": CM, "mode": "block", "scaffold": sc["scaffold"], "spec": sc.get("spec", {}),
+                                                          "name": sc["name"] + "-cm"}, "weight": 4})
+    for j in jobs:
+        j["cpu_cap"] = 3000
+        j["wall_cap"] = 4000
+    return jobs
